@@ -406,6 +406,133 @@ class Adversary:
             self._do("drop")
 
 
+# ------------------------------------------------------------------------------------------------ crash debris
+def crash_write(srv, folder, request, at, age):
+    """Fork; the child serves `request` with the real application and dies (os._exit, nothing is cleaned up) right
+    before its `at`-th mutating file event below `folder` (audit level: mkdir / open for writing / rename / remove /
+    rmdir / rmtree ...); at = 0: it dies only after the request is finished.  Then every mtime below `folder` is
+    moved `age` seconds into the past ("nobody touched the storage for that long").  Returns a description of
+    what was left behind: [died (bool), number of new hidden names (temporary directories ...) outside the cache area]."""
+    global mark
+    folder = os.path.realpath(folder)
+
+    def hidden_names():
+        out = set()
+        for d, dirs, files in os.walk(folder):
+            if ".Radicale.cache" not in d.split(os.sep):
+                out.update(os.path.join(d, n) for n in dirs + files
+                           if n.startswith(".") and n not in (".Radicale.cache", ".Radicale.props", ".Radicale.lock"))
+        return out
+    before = hidden_names()
+    sys.stdout.flush()
+    sys.stderr.flush()
+    pid = os.fork()
+    if pid == 0:
+        try:
+            mark = lambda label: None       # noqa: E731  the child's marks are not events of the observed server
+            count = [0]
+            wr = os.O_WRONLY | os.O_RDWR | os.O_CREAT | os.O_TRUNC | os.O_APPEND
+
+            def hook(event, args):
+                if event == "open":
+                    if not (isinstance(args[2], int) and args[2] & wr):
+                        return
+                elif event not in ("os.rename", "os.remove", "os.rmdir", "os.mkdir", "shutil.rmtree", "os.truncate",
+                                   "os.utime", "os.link", "os.symlink"):
+                    return
+                p = args[0]
+                if isinstance(p, bytes):
+                    p = os.fsdecode(p)
+                if not isinstance(p, str):
+                    return
+                ap = os.path.normpath(p if os.path.isabs(p) else os.path.join(os.getcwd(), p))
+                if (ap + os.sep).startswith(folder + os.sep) and os.path.basename(ap) != ".Radicale.lock":
+                    count[0] += 1
+                    if at and count[0] >= at:
+                        os._exit(9)
+            sys.addaudithook(hook)
+            srv.request(request["method"], request["path"], data=request.get("data"), login=request.get("login"),
+                        **request.get("headers", {}))
+        finally:
+            os._exit(0)
+    _, status = os.waitpid(pid, 0)
+    died = os.WIFEXITED(status) and os.WEXITSTATUS(status) == 9
+    odd = len(hidden_names() - before)
+    now = __import__("time").time()
+    for d, dirs, files in os.walk(folder):
+        if age:
+            for n in dirs + files:
+                try:
+                    os.utime(os.path.join(d, n), (now - age, now - age), follow_symlinks=False)
+                except OSError:
+                    pass
+    return [died, odd]
+
+
+AGES = [0, 600, 2 * 3600, 3 * 86400, 45 * 86400, 400 * 86400]
+
+
+def crash_victims(tag):
+    """One write request of every shape whose interruption leaves something behind (deterministic; `tag` makes the
+    created names distinct)."""
+    L = "u:"
+    mv = dict(HOST, HTTP_DESTINATION="http://127.0.0.1/u/cal/mv%s.ics" % tag)
+    return [dict(method="PUT", path="/u/cal/cr%s.ics" % tag, login=L, data=ev("cr%s" % tag, 5)),
+            dict(method="PUT", path="/u/cal/e2.ics", login=L, data=ev("e2", 6, n="again")),
+            dict(method="PUT", path="/u/ab/cr%s.vcf" % tag, login=L, data=CARD % ("cr%s" % tag, 1)),
+            dict(method="PUT", path="/u/whole%s/" % tag, login=L, data=ev("w%s" % tag, 3), headers={"CONTENT_TYPE": "text/calendar"}),
+            dict(method="PUT", path="/u/cal2/", login=L, data=ev("w2%s" % tag, 3), headers={"CONTENT_TYPE": "text/calendar"}),
+            dict(method="DELETE", path="/u/cal/e4.ics", login=L),
+            dict(method="DELETE", path="/u/cal2/", login=L),
+            dict(method="MOVE", path="/u/cal/e3.ics", login=L, headers=mv),
+            dict(method="PROPPATCH", path="/u/cal/", login=L, data=PROPPATCH_OK % 3),
+            dict(method="MKCALENDAR", path="/u/mk%s/" % tag, login=L),
+            dict(method="MKCOL", path="/u/ab%s/" % tag, login=L, data=MKCOL_AB),
+            first_login_request("PROPFIND", "c%s" % tag)]
+
+
+def read_block(rng):
+    """Read-only requests that look at everything a crash in /u/ can have touched."""
+    L = "u:"
+    r = []
+    for p in ("/u/", "/u/cal/", "/u/ab/", "/u/cal2/"):
+        r.append(dict(method="PROPFIND", path=p, login=L, data=propfind_body(rng.choice(["allprop", "prop", "propname"]), rng),
+                      headers={"HTTP_DEPTH": "1"}))
+    r.append(dict(method="GET", path=rng.choice(["/u/cal/", "/u/ab/"]), login=L))
+    r.append(dict(method="GET", path=rng.choice(["/u/cal/e1.ics", "/u/cal/e2.ics", "/u/ab/c1.vcf"]), login=L))
+    r.append(dict(method="HEAD", path="/u/cal2/", login=L))
+    for kind, tgt in (("sync", "/u/cal/"), ("query", "/u/cal/"), ("freebusy", "/u/cal/"), ("ab-query", "/u/ab/"),
+                      ("multiget", "/u/cal/"), ("sync", "/u/ab/")):
+        r.append(dict(method="REPORT", path=tgt, login=L, rkind=kind,
+                      data=report_body(kind, rng, ["/u/cal/e1.ics", "/u/cal/e3.ics"], rng.choice(["", "@LAST"]))))
+        if "@LAST" in r[-1]["data"]:
+            r[-1]["use_last_token"] = True
+    rng.shuffle(r)
+    for x in r:
+        x["kind"] = "after-crash"
+    return r
+
+
+def debris_requests(rng, scenarios, tag="d"):
+    """`scenarios` times: a server process dies at a chosen point of a write request, time passes, then only reads.
+    Crash points: the first scenarios walk victim x point systematically (points 1..7 in the order of a seeded
+    permutation), the rest is random (points 1..14)."""
+    out = []
+    victims = crash_victims(tag)
+    grid = [(v, k) for k in range(1, 8) for v in range(len(victims))]
+    rng.shuffle(grid)
+    for i in range(scenarios):
+        if i < len(grid):
+            v, k = grid[i]
+        else:
+            v, k = rng.randrange(len(victims)), rng.randint(1, 14)
+        victims = crash_victims("%s%d" % (tag, i))
+        age = AGES[i % len(AGES)] if i < 2 * len(AGES) else rng.choice(AGES)
+        out.append(dict(method="_CRASH", path="", request=victims[v], at=k, age=age, kind="crash"))
+        out += read_block(rng)
+    return out
+
+
 # ------------------------------------------------------------------------------------------------ request mix
 EVENT = ("BEGIN:VCALENDAR\r\nPRODID:-//v//EN\r\nVERSION:2.0\r\nBEGIN:VEVENT\r\nUID:%s\r\nSUMMARY:s%s\r\n"
          "DTSTART:201309%02dT180000Z\r\nDTEND:201309%02dT190000Z\r\n%sEND:VEVENT\r\nEND:VCALENDAR\r\n")
